@@ -11,7 +11,7 @@ class MQ:
     executes real MIR functions and states the property with vm.check(). `replay(cex)` renders a native Rust test."""
 
     def __init__(self, name, tier, fn, claim, bounds, functions, replay=None, max_paths=20000, timeout=600,
-                 opts=None, spec_calls=None, key=None):
+                 opts=None, spec_calls=None, key=None, z3_timeout_ms=20000):
         self.name = name
         self.tier = tier
         self.fn = fn
@@ -24,6 +24,7 @@ class MQ:
         self.opts = opts or {}
         self.spec_calls = spec_calls
         self.key = key
+        self.z3_timeout_ms = z3_timeout_ms
 
 
 def _model_dict(vm, model):
@@ -69,7 +70,7 @@ def _worker(mir_path, repo_dir, modname, qname, seed):
     models.M.opts.clear()
     models.M.opts.update({"map_order": "insertion"})
     models.M.opts.update(q.opts)
-    vm = engine.new_vm(prog, spec_calls=q.spec_calls(prog) if callable(q.spec_calls) else q.spec_calls)
+    vm = engine.new_vm(prog, spec_calls=q.spec_calls(prog) if callable(q.spec_calls) else q.spec_calls, timeout_ms=q.z3_timeout_ms)
     out = dict(name=qname, status="inconclusive", detail="", paths=0, completed=0, solver_s=0.0, queries=0,
                sample=None, cex=None, replay_src=None, key=None)
     t0 = time.time()
